@@ -19,7 +19,7 @@ pub const SPEC: Spec = Spec {
     thorough_cases: 1_500_000,
     alloc_limit: 96 << 20,
     hang_is_violation: true,
-    fuzz: Some(FuzzSpec { target: "c02_decode", prefix: &[0], max_len: 4096, quick_runs: 20_000, thorough_runs: 600_000, jobs: 16 }),
+    fuzz: Some(FuzzSpec { target: "c02_decode", prefix: &[0], max_len: 4096, quick_runs: 20_000, thorough_runs: 200_000, jobs: 16 }),
     ..Spec::base("C02", "Decoder is total and accepts only the canonical encoding", case)
 };
 
